@@ -106,7 +106,8 @@ def oracle(sc):
             out.append(E.failure('tasks-alive-after-close', sc, mode=mode, tasks=res['tasks']))
         if res.get('pending_futures'):
             out.append(E.failure('request-left-hanging', sc, mode=mode, oids=res['pending_futures']))
-        if res.get('escaped'):
+        if res.get('escaped') and not sc.desc.get('on_close_raises'):
+            # (an on_close hook that raises surfaces as the receiver task's exception: the application's own failure)
             out.append(E.failure('exception-escaped', sc, mode=mode, detail=res['escaped']))
         if res.get('unsettled'):
             out.append(E.failure('busy-after-close', sc, mode=mode))
@@ -116,7 +117,9 @@ def oracle(sc):
 def _descs(ctx, n):
     return E.mk_descs(ctx.rng, n, hostile=0.0, with_close=True, steps=(2, 16), frag=0.2, race=0.4,
                       close_mode=lambda r: r.choice(['eof', 'error', 'close', 'cut']),
-                      app_raises_at_close=lambda r: r.random() < 0.3)
+                      app_raises_at_close=lambda r: r.random() < 0.3,
+                      on_close_raises=lambda r: r.random() < 0.15,
+                      close_during_on_close=lambda r: r.choice([0, 0, 1, 2, 3, 5]))
 
 
 def correspond(ctx, corr, model_ok):
